@@ -669,10 +669,13 @@ class NPProxy:
 
     nan = NAN
 
-    def __init__(self, real=np):
+    def __init__(self, real=np, linalg=None, fft=None, **extra):
+        """linalg / fft: stub namespaces replacing np.linalg / np.fft in the twin; extra: attribute overrides"""
         object.__setattr__(self, "_np", real)
-        object.__setattr__(self, "linalg", real.linalg)
-        object.__setattr__(self, "fft", real.fft)
+        object.__setattr__(self, "linalg", linalg if linalg is not None else real.linalg)
+        object.__setattr__(self, "fft", fft if fft is not None else real.fft)
+        for k, v in extra.items():
+            object.__setattr__(self, k, v)
 
     def __getattr__(self, k):
         f = getattr(np, k)
